@@ -36,7 +36,7 @@ def plan(tier, seed):
 
 def floors(tier):
     return {"distinct_nontrivial": 500, "cls:n=0": 300, "cls:n=1": 300, "cls:n>=2": 300, "cls:form:entity": 200,
-            "cls:form:set_of": 300, "cls:ambient:query": 100, "cls:ambient:rule": 100, "cls:caching_off": 200,
+            "cls:form:set_of": 300, "cls:form:predform": 100, "cls:ambient:query": 100, "cls:ambient:rule": 100, "cls:caching_off": 200,
             "cls:equal_valued_distinct_objects": 300, "cls:domain_without_instances_of_the_type": 100, "cls:solutions_equal_by_value": 50,
             "re:The(@.*)?\\.enter": 0}
 
@@ -68,6 +68,16 @@ def cases(spec, ctx):
                 break
         best["form"] = "entity" if len(best["kinds"]) == 1 and rng.random() < 0.8 else "set_of"
         best["sel"] = sorted(best["sel"]) if best["form"] == "entity" else best["sel"]
+        if rng.random() < 0.1:
+            # predicate-form spelling: the(T(From(d), field=value)) - one variable, one or two field constraints
+            k = rng.choice("PQ")
+            w = D.random_world(rng, np_=(1, 4), nq=(1, 4))
+            flds = [[f, rng.randint(1, 3)] for f in rng.sample(["a", "b"], rng.randint(1, 2))]
+            cond = ["and"] + [["cmp", "==", ["v", 0, [["a", f]]], ["lit", v]] for f, v in flds] if len(flds) > 1 else \
+                ["cmp", "==", ["v", 0, [["a", flds[0][0]]]], ["lit", flds[0][1]]]
+            yield {"world": w, "kinds": [k], "cond": cond, "sel": [0], "form": "predform", "fields": flds,
+                   "ambient": rng.choice(["none", "none", "query", "rule"]), "caching": rng.random() < 0.7}
+            continue
         if rng.random() < 0.08:
             # the supplied domain holds no instance of the variable's type (empty, or only objects of another type) while
             # instances of the type exist elsewhere: zero solutions
@@ -104,12 +114,18 @@ def run(case, world):
     (enable_caching if case["caching"] else disable_caching)()
     outs = []
     try:
-        q, xs = H.build_query(case["kinds"], doms, case["cond"], case["sel"], form=case["form"], quant="the", register=False)
+        if case["form"] == "predform":
+            from entity_query_language import symbolic_mode, the, From
+            with symbolic_mode():
+                q = the(D.CLASSES[case["kinds"][0]](From(doms[0]), **{f: v for f, v in case["fields"]}))
+            xs = None
+        else:
+            q, xs = H.build_query(case["kinds"], doms, case["cond"], case["sel"], form=case["form"], quant="the", register=False)
         for rep in range(3):
             with _ctx(case["ambient"]):
                 try:
                     v = q.evaluate()
-                    if case["form"] == "entity":
+                    if case["form"] in ("entity", "predform"):
                         outs.append(["value", [H.lab(m, v)]])
                     else:
                         outs.append(["value", [H.lab(m, v[xs[i]]) for i in case["sel"]]])
@@ -119,8 +135,9 @@ def run(case, world):
                     outs.append(["none"])
                 except Exception as e:  # any other exception is an outcome outside the three allowed ones
                     outs.append(["EXC", f"{type(e).__name__}: {e}"[:200]])
-        q2, xs2 = H.build_query(case["kinds"], doms, case["cond"], case["sel"], form=case["form"], quant="an", register=False)
-        an_rows = H.rows_of(q2, xs2, case["sel"], m, case["form"])
+        form2 = "entity" if case["form"] == "predform" else case["form"]
+        q2, xs2 = H.build_query(case["kinds"], doms, case["cond"], case["sel"], form=form2, quant="an", register=False)
+        an_rows = H.rows_of(q2, xs2, case["sel"], m, form2)
     finally:
         enable_caching()
     return outs, an_rows
